@@ -2,10 +2,10 @@ import TracklibVerif.Props.C12
 set_option linter.unusedSectionVars false
 /-! # C12 — the dispatcher `findStops(track, spatial, temporal, MODE_STOPS_GLOBAL, verbose)`
 
-`findStops` calls `findStopsGlobal(track, spatial, temporal, verbose)` positionally; the fourth parameter of
-`findStopsGlobal` is `downsampling` (model: `findStopsPy`, `boolNum`). With `verbose = True` (the default) this is the call
-with `downsampling = 1`; with `verbose = False` every stop is reported with `id_ini = id_end = 0`
-(finding `stops-dispatch-verbose-as-downsampling`). -/
+`findStops` calls `findStopsGlobal(track, spatial, temporal, verbose=verbose)`: the flag goes by keyword and `downsampling`
+keeps its default 1 (model: `findStopsPy`, `dispatchDs`). Whatever `verbose` is, the dispatcher returns what
+`findStopsGlobal(track, spatial, temporal)` returns. Before the repair (`fixed` entry `stops-dispatch-verbose-as-downsampling`)
+the flag was passed positionally and landed in `downsampling`: `findStopsPyOld`, `find_stops_dispatch_silent_old`. -/
 namespace TV.C12
 open TV.Partition
 variable {K : Type} [CommRing K] [LinearOrder K] [IsStrictOrderedRing K]
@@ -18,17 +18,26 @@ theorem find_stops_dispatch_verbose (sq ofNat : Nat → K) (track resampled : Li
     findStopsPy 0 1 sq ofNat track resampled circ2 circA spatial temporal true
       = findStopsGlobalPy 0 1 sq ofNat track resampled circ2 circA spatial temporal 1 := rfl
 
-/-- Finding `stops-dispatch-verbose-as-downsampling` as a theorem about the model: `findStops(…, MODE_STOPS_GLOBAL, False)`
-computes the same segmentation on the same track as the call with `downsampling = 1` and reports the same stops in the same
-order with the same `nb_points`, but with `id_ini = id_end = 0` for every one of them (`index * False`). -/
+/-- `findStops(…, MODE_STOPS_GLOBAL, False)` returns exactly what `findStopsGlobal(track, spatial, temporal)` returns
+(`downsampling = 1`): the same stops with the same identifiers (the statement that was false of the code before the repair:
+`find_stops_dispatch_silent_old`). -/
 theorem find_stops_dispatch_silent (sq ofNat : Nat → K) (track resampled : List (Fix K)) (circ2 circA : Nat → Nat → Option K)
     (spatial temporal : K) :
     findStopsPy 0 1 sq ofNat track resampled circ2 circA spatial temporal false
+      = findStopsGlobalPy 0 1 sq ofNat track resampled circ2 circA spatial temporal 1 := rfl
+
+/-- About the PRE-FIX variant `findStopsPyOld` only (no longer a model of any code; kept as the record of the repaired defect
+`stops-dispatch-verbose-as-downsampling`): `findStops(…, MODE_STOPS_GLOBAL, False)` computed the same segmentation on the same
+track as the call with `downsampling = 1` and reported the same stops in the same order with the same `nb_points`, but with
+`id_ini = id_end = 0` for every one of them (`index * False`). -/
+theorem find_stops_dispatch_silent_old (sq ofNat : Nat → K) (track resampled : List (Fix K)) (circ2 circA : Nat → Nat → Option K)
+    (spatial temporal : K) :
+    findStopsPyOld 0 1 sq ofNat track resampled circ2 circA spatial temporal false
       = (findStopsGlobalPy 0 1 sq ofNat track resampled circ2 circA spatial temporal 1).map
           (fun l => l.map (fun s => ((0 : K), (0 : K), s.2.2))) := by
   have h0 : ¬ ((1 : K) < 0) := not_lt.mpr zero_le_one
   have h1 : ¬ ((1 : K) < 1) := lt_irrefl _
-  simp only [findStopsPy, boolNum, findStopsGlobalPy, stopsTrack, h0, h1, if_false, Bool.false_eq_true]
+  simp only [findStopsPyOld, boolNum, findStopsGlobalPy, stopsTrack, h0, h1, if_false, Bool.false_eq_true]
   split
   · rfl
   · split
@@ -36,12 +45,13 @@ theorem find_stops_dispatch_silent (sq ofNat : Nat → K) (track resampled : Lis
     · simp only [Except.map, List.map_map, mul_zero]
       rfl
 
-/-- non-vacuity: four fixes at one place then a move (the last two fixes are never part of a stop), one stop on the fixes `0 … 2`: reported as `(0, 2, 3)` by `verbose = True` and as
-`(0, 0, 3)` by `verbose = False` -/
+/-- non-vacuity: four fixes at one place then a move (the last two fixes are never part of a stop), one stop on the fixes `0 … 2`: reported as `(0, 2, 3)` by `verbose = True` and by `verbose = False`;
+the pre-fix variant reported `(0, 0, 3)` for `verbose = False` (the witness of the repaired defect) -/
 example :
     let tr : List (Fix Int) := [⟨0, 0, 0, 0⟩, ⟨0, 0, 0, 10⟩, ⟨0, 0, 0, 20⟩, ⟨0, 0, 0, 30⟩, ⟨50, 0, 0, 40⟩]
     findStopsPy (0 : Int) 1 (fun n => n * n) (fun n => n) tr [] (fun _ _ => some 0) (fun _ _ => some 0) 3 5 true = .ok [(0, 2, 3)]
-    ∧ findStopsPy (0 : Int) 1 (fun n => n * n) (fun n => n) tr [] (fun _ _ => some 0) (fun _ _ => some 0) 3 5 false
+    ∧ findStopsPy (0 : Int) 1 (fun n => n * n) (fun n => n) tr [] (fun _ _ => some 0) (fun _ _ => some 0) 3 5 false = .ok [(0, 2, 3)]
+    ∧ findStopsPyOld (0 : Int) 1 (fun n => n * n) (fun n => n) tr [] (fun _ _ => some 0) (fun _ _ => some 0) 3 5 false
         = .ok [(0, 0, 3)] := by decide +kernel
 
 end TV.C12
